@@ -274,6 +274,10 @@ fn c08b(ctx: &Ctx, info: &LangInfo, h: &Harness, bound: usize, res: &mut ShardRe
 }
 
 fn docs_for(name: &str) -> Vec<&'static str> {
+    // (indent / pstring: the last documents nest deep enough for external scanner states of more than 24 bytes, which
+    // tokens keep on the heap; a copied token must own its copy)
+    if name == "indent" { return vec!["a:\n b\nc\n", Box::leak(crate::zoo::deep_indent_doc(26).into_boxed_str())]; }
+    if name == "pstring" { return vec!["%(a(b)c) d", Box::leak(crate::zoo::deep_pstring_doc(9).into_boxed_str())]; }
     match name {
         // (last: a multi-line comment token, i.e. a heap leaf, that is a rule member after '@' and an extra without it)
         "stmts" => vec!["a; b;", "let a = 1; { b; c; } d;", "a;b;c;d;e;f;g;h;i;j;k;l;m;n;o;p;", "@ /*a\nb*/ x;"],
